@@ -51,13 +51,14 @@ type lisBeh struct {
 // Job is one case executed by a worker process.
 type Job struct {
 	ID         int             `json:"id"`
-	Kind       string          `json:"kind"` // "replay" | "proc" | "free"
+	Kind       string          `json:"kind"` // "replay" | "proc" | "free" | "burst"
 	Name       string          `json:"name,omitempty"`
 	DeadlineMs int             `json:"deadlineMs"` // how long Stop/Drain may take
 	Attempt    int             `json:"attempt"`
 	Beh        *lisBeh         `json:"beh,omitempty"`      // kind replay
 	Scenario   *Scenario       `json:"scenario,omitempty"` // kind proc
 	Free       *FreeSpec       `json:"free,omitempty"`     // kind free
+	Burst      *BurstSpec      `json:"burst,omitempty"`    // kind burst
 	Raw        json.RawMessage `json:"-"`
 }
 
